@@ -1,30 +1,15 @@
 #include "sessb_world.h"
 int main(void)
 {
-  uint8_t wp = 1, kind = K_APP, destroy = 0, noinc = 0; uint32_t custom = 0;
-#ifdef S_WP
-  wp = nondet_u8() & 1;
-#endif
-  world_init(wp, 0);
+  world_init(1, 0);
   uint32_t n = nondet_u32(), r = nondet_u32();
   VF_ASSUME(n >= 1 && n <= 0xfffffff0u && r >= 1 && r <= 0xfffffff0u);
   vf_sess_set_seq(SESS, n, r); vf_sess_set_flags(SESS, 1, 0, 0, 0, 0); vf_sess_set_state(SESS, 1);
-#ifdef S_KIND
-  kind = nondet_u8(); VF_ASSUME(kind < NKIND);
-#endif
-#ifdef S_DESTROY
-  destroy = nondet_u8() & 1;
-#endif
-#ifdef S_CUSTOM
-  custom = nondet_u32(); noinc = nondet_u8() & 1;
-#endif
-  world_msg(0, kind);
-#ifdef S_PRE
-  if (nondet_u8() & 1) { a_has[0][T34] = 1; a_v34[0] = nondet_u32(); a_has[0][T52] = 1; a_v52[0] = 5; if (nondet_u8() & 1) { a_has[0][T43] = 1; a_v43[0] = 1; } }
-#endif
-  uint32_t ok = vf_sb_send_p(&the_sess, MSGP(0), destroy, custom, noinc) & 1;
-  __CPROVER_assert(ok, "ok");
-  __CPROVER_assert(e_n == 1, "enc");
+  for (int i = 0; i < NMSG; i++) { world_msg(i, K_APP); the_arr[i] = MSGP(i); }
+  vf_sb_vec_set(&the_vec, the_arr, JJ, NMSG);
+  uint32_t ok = vf_sb_send_batch(&the_sess, &the_vec, 0);
+  __CPROVER_assert(ok == JJ, "ok");
+  __CPROVER_assert(e_n == JJ, "enc");
   __CPROVER_assert(0, "reach");
   return 0;
 }
